@@ -450,6 +450,39 @@ func gen(w *bufio.Writer, seed int64, quick bool) {
 		w.WriteByte('\n')
 	}
 
+	// ---- kind 7: TeeBackend with SetTee called while a read is in progress
+	for k := 0; k < 200; k++ {
+		nres := 1 + rng.Intn(9)
+		type lenErrSw struct{ n, e, sw int }
+		var cuts []lenErrSw
+		total := 0
+		for j := 0; j < nres; j++ {
+			n := rng.Intn(30)
+			if rng.Intn(5) == 0 {
+				n = 0
+			}
+			e := 0
+			if rng.Intn(5) == 0 {
+				e = 1
+			}
+			sw := 0
+			if rng.Intn(2) == 0 {
+				sw = 1 + rng.Intn(3)
+			}
+			cuts = append(cuts, lenErrSw{n, e, sw})
+			total += n
+		}
+		id++
+		fmt.Fprintf(w, "7 %d %d", id, nres)
+		for _, c := range cuts {
+			fmt.Fprintf(w, " %d %d %d", c.n, c.e, c.sw)
+		}
+		for j := 0; j < total; j++ {
+			fmt.Fprintf(w, " %d", rng.Intn(256))
+		}
+		w.WriteByte('\n')
+	}
+
 	// ---- kind 5: Resize forwards (w, h) after both buffers were resized
 	dims := []int{1, 2, 3, 14, 24, 80, 81, 132, 300}
 	for _, w0 := range []int{1, 80, 200} {
@@ -817,6 +850,84 @@ func runTee(f []int, w *bufio.Writer) {
 	w.WriteByte('\n')
 }
 
+// switchBackend calls SetTee from inside Read, before it returns: what another goroutine does while the read loop is
+// blocked in the backend
+type switchBackend struct {
+	rs   []readRes
+	sws  []int
+	tee  *termemu.TeeBackend
+	a, b *countingWriter
+}
+
+func (s *switchBackend) Read(p []byte) (int, error) {
+	if len(s.rs) == 0 {
+		return 0, io.EOF
+	}
+	switch s.sws[0] {
+	case 1:
+		s.tee.SetTee(s.a)
+	case 2:
+		s.tee.SetTee(s.b)
+	case 3:
+		s.tee.SetTee(nil)
+	}
+	r := s.rs[0]
+	s.rs, s.sws = s.rs[1:], s.sws[1:]
+	n := copy(p, r.b)
+	var err error
+	if r.err {
+		err = io.ErrUnexpectedEOF
+	}
+	return n, err
+}
+func (s *switchBackend) Write(p []byte) (int, error) { return len(p), nil }
+func (s *switchBackend) SetSize(w, h int) error      { return nil }
+
+func runTeeSwitch(f []int, w *bufio.Writer) {
+	id, nres := f[1], f[2]
+	var rs []readRes
+	var sws []int
+	stream := f[3+3*nres:]
+	pos := 0
+	for i := 0; i < nres; i++ {
+		n := f[3+3*i]
+		b := make([]byte, n)
+		for j := 0; j < n; j++ {
+			b[j] = byte(stream[pos+j])
+		}
+		pos += n
+		rs = append(rs, readRes{b: b, err: f[3+3*i+1] != 0})
+		sws = append(sws, f[3+3*i+2])
+	}
+	be := &switchBackend{rs: rs, sws: sws, a: &countingWriter{}, b: &countingWriter{}}
+	tee := termemu.NewTeeBackend(be)
+	be.tee = tee
+	tee.SetTee(be.a)
+	var ret []int
+	p := make([]byte, 64)
+	for i := 0; i < nres; i++ {
+		n, err := tee.Read(p)
+		e := 0
+		if err != nil {
+			e = 1
+		}
+		ret = append(ret, n, e)
+	}
+	fmt.Fprintf(w, "7 %d %d", id, len(be.a.b))
+	for _, c := range be.a.b {
+		fmt.Fprintf(w, " %d", c)
+	}
+	fmt.Fprintf(w, " -1 %d", len(be.b.b))
+	for _, c := range be.b.b {
+		fmt.Fprintf(w, " %d", c)
+	}
+	fmt.Fprint(w, " -1")
+	for _, r := range ret {
+		fmt.Fprintf(w, " %d", r)
+	}
+	w.WriteByte('\n')
+}
+
 type countingWriter struct {
 	b     []byte
 	calls int
@@ -893,6 +1004,8 @@ func run(r *bufio.Reader, w *bufio.Writer) {
 					runWrite(f, w)
 				case 4:
 					runTee(f, w)
+				case 7:
+					runTeeSwitch(f, w)
 				case 5:
 					runResize(f, w)
 				case 6:
